@@ -936,7 +936,12 @@ fn check_case(sup: &mut Sup, rng: &mut Rng, n: usize, tier: &str, stats: &mut St
     let mut rs = vec!["A new".to_string(), "A seti chewing.disable_auto_learn_phrase 1".to_string()];
     // nothing in the reset pair may write the user dictionary: auto-learning is off, Ctrl-number (add the
     // phrase before the cursor) is left out
-    let quiet = |o: &String| !o.contains("disable_auto_learn") && !o.contains("autoLearn") && !o.contains(" ctrl ");
+    // phrase before the cursor) and Shift-Left / Shift-Right (highlight a range, Enter adds it as a user phrase whatever
+    // the auto-learn setting) are left out - found by the seed sweep (seed 12): a prefix that added a phrase this way made
+    // the reset context's user dictionary differ from the fresh one's, which the property allows
+    let quiet = |o: &String| {
+        !o.contains("disable_auto_learn") && !o.contains("autoLearn") && !o.contains(" ctrl ") && !o.contains(" h ShiftLeft") && !o.contains(" h ShiftRight")
+    };
     rs.extend(with_ctx("A", &prefix).into_iter().filter(quiet));
     let cut = rs.len();
     rs.push("A api reset".into());
